@@ -172,19 +172,44 @@ def _check_snap(run, world, mod, rfn):
         `cls.check_raw(X) or cls.raw_to_value(X)` of one name X is written
         with X as `raw`."""
         nf = normalise(fn, world, LOC, mvcls, aliases="params")
+        from ..inline import InlineBlock
         out = []
-        tmp = {}
-        for n in ast.walk(nf):
+        tmp = {}       # __ret_N -> [value expressions]
+
+        def own(stmts):
+            """Nodes of this function, not of inlined callees."""
+            for s_ in stmts:
+                if isinstance(s_, InlineBlock):
+                    t = s_.target
+                    if isinstance(t, ast.Name) and t.id.startswith("__ret_"):
+                        tmp[t.id] = [r.value for r in own(s_.body)
+                                     if isinstance(r, ast.Return) and
+                                     r.value is not None]
+                    continue
+                yield s_
+                for fld in ("body", "orelse", "finalbody"):
+                    sub = getattr(s_, fld, None)
+                    if isinstance(sub, list) and sub and isinstance(
+                            sub[0], ast.stmt):
+                        yield from own(sub)
+                for h in getattr(s_, "handlers", []):
+                    yield from own(h.body)
+        nodes = list(own(nf.body))
+        for n in nodes:
             if isinstance(n, ast.Assign) and len(n.targets) == 1 and \
                     isinstance(n.targets[0], ast.Name) and \
                     n.targets[0].id.startswith("__ret_"):
-                tmp[n.targets[0].id] = n.value
-        for n in ast.walk(nf):
+                tmp[n.targets[0].id] = [n.value]
+        vals = []
+        for n in nodes:
             if not (isinstance(n, ast.Return) and n.value is not None):
                 continue
             v = n.value
             if isinstance(v, ast.Name) and v.id in tmp:
-                v = tmp[v.id]  # the value of an inlined helper call
+                vals += tmp[v.id]     # the value of an inlined helper call
+            else:
+                vals.append(v)
+        for v in vals:
             if isinstance(v, ast.BoolOp) and isinstance(v.op, ast.Or) and \
                     len(v.values) == 2 and all(
                         isinstance(c, ast.Call) and len(c.args) == 1 and
